@@ -45,7 +45,10 @@ static sigjmp_buf jb;
 static void on_fpe(int s) { (void)s; siglongjmp(jb, 1); }
 static T f(T a, T b) { return 1 + 2 * a + 3 * b; }
 static T g(T a) { return 2 + 3 * a; }
-static T t[8] = { 10, 20, 5, 0, 0, 0, 0, 0 };
+/* t = (10, 20, 5); a wild index (never judged: the spec skips subscripts outside
+   0..2) must not take the whole batch down: big zeroed margins + SIGSEGV handler */
+static T tbuf[1 << 17];
+#define t (tbuf + (1 << 16))
 static struct { T p; T q; } o = { 5, 7 };
 static void put(int id, int sub, int ei, T r) {
 #if %(ISINT)d
@@ -94,7 +97,8 @@ class Unit:
         lines.append("static T envs[][3] = { " + ", ".join(
             "{ " + ", ".join(cnum(e[k], self.ty) for k in "xyz") + " }" for e in self.envs) + " };")
         lines.append("int main(void) {")
-        lines.append("  signal(SIGFPE, on_fpe);")
+        lines.append("  signal(SIGFPE, on_fpe); signal(SIGSEGV, on_fpe); signal(SIGBUS, on_fpe);")
+        lines.append("  t[0] = 10; t[1] = 20; t[2] = 5;")
         lines.append("  for (int i = 0; fns[i]; i++)")
         lines.append(f"    for (int ei = 0; ei < {len(self.envs)}; ei++) {{")
         lines.append("      if (sigsetjmp(jb, 1) == 0) fns[i](ei, envs[ei][0], envs[ei][1], envs[ei][2]);")
